@@ -55,6 +55,8 @@ pub struct GenIface {
 pub struct GenWorld {
     pub name: String,
     pub text: String,
+    /// plain (kebab) names of the world's function / inline-interface imports and exports
+    pub names: Vec<String>,
 }
 
 pub struct GenPkg {
@@ -394,15 +396,31 @@ impl<'a> Gen<'a> {
             let mut body = String::new();
             let mut sc = Scope::default();
             let mut names: Vec<String> = vec![];
-            // include of an earlier world of this package
-            let mut included = false;
-            if wi > 0 && self.r.chance(1, 2) {
+            // include of an earlier world of this package, optionally renaming some of its items
+            if wi > 0 && self.r.chance(2, 3) {
                 self.feat("world:include");
                 let prev = pkg.worlds[0].name.clone();
-                body.push_str(&format!("  include {prev};\n"));
-                included = true;
+                let prev_names = pkg.worlds[0].names.clone();
+                let mut withs = vec![];
+                for n in &prev_names {
+                    if self.r.chance(1, 2) {
+                        let to = self.fresh("inc");
+                        withs.push(format!("{n} as {to}"));
+                        names.push(to);
+                    } else {
+                        names.push(n.clone());
+                    }
+                }
+                if withs.is_empty() {
+                    body.push_str(&format!("  include {prev};\n"));
+                } else {
+                    self.feat("world:include-with");
+                    // WIT has no `;` after the `with` list, WAC requires one: `/*;*/` is a comment
+                    // for WIT and is replaced by `;` for WAC
+                    body.push_str(&format!("  include {prev} with {{ {} }}/*;*/\n", withs.join(", ")));
+                }
             }
-            if !included {
+            {
                 self.uses(&mut sc, "  ", &sources, &mut body, 2);
                 let nt = self.r.below(3);
                 let mut fns = vec![];
@@ -438,13 +456,13 @@ impl<'a> Gen<'a> {
                             let mut isc = Scope::default();
                             let mut ib = String::new();
                             self.iface_body(&sources, "    ", &mut isc, &mut ib);
-                            body.push_str(&format!("  {dir} {f}: interface {{\n{ib}  }}\n"));
+                            body.push_str(&format!("  {dir} {f}: interface {{\n{ib}  }}/*;*/\n"));
                         }
                     }
                 }
             }
             let text = format!("world {wname} {{\n{body}}}\n");
-            pkg.worlds.push(GenWorld { name: wname, text });
+            pkg.worlds.push(GenWorld { name: wname, text, names });
         }
         pkg.features = std::mem::take(&mut self.features);
         pkg
